@@ -512,6 +512,30 @@ fn deterministic_generators(rec: &Recorder, out: &mut RunOutput) {
             }
         }
     }
+    // ... and the other side of the same boundary: every p strictly inside (0,1) is valid through the PUBLIC entry
+    // point, however close to an end (the dictated-draw runs above use the hook entry, which has no validation)
+    let below_one = f64::from_bits(1.0f64.to_bits() - 1);
+    for p in [5e-324, f64::MIN_POSITIVE, 1e-300, 1e-20, 1e-17, 1e-16, f64::EPSILON / 2.0, f64::EPSILON, 1e-12, 1e-3, 0.5, 1.0 - 1e-12, 1.0 - f64::EPSILON, 1.0 - f64::EPSILON / 2.0, below_one] {
+        for directed in [false, true] {
+            for n in [0, 1, 2, 3, 5, 20] {
+                for seed in [Some(0), Some(7), None] {
+                    calls += 1;
+                    let case = format!("valid:{n}:{p:e}:{directed}");
+                    match guarded(|| random::fast_gnp_random_graph(n, p, directed, seed)) {
+                        Ok(Ok(g)) => {
+                            let mut nodes: Vec<i32> = g.get_all_nodes().iter().map(|x| x.name).collect();
+                            nodes.sort();
+                            if nodes != (0..n).collect::<Vec<i32>>() {
+                                rec.record(Violation::new("structure", "fast_gnp_random_graph", case, format!("fast_gnp_random_graph({n}, {p:e}, {directed}, {seed:?}) has nodes {nodes:?}")));
+                            }
+                        }
+                        Ok(Err(e)) => rec.record(Violation::new("succeeds", "fast_gnp_random_graph", case, format!("fast_gnp_random_graph({n}, {p:e}, {directed}, {seed:?}) returned Err({:?}) for a probability strictly between 0 and 1", e.kind))),
+                        Err(pi) => rec.record(Violation::new(if pi.is_overflow() { "no_overflow" } else { "no_panic" }, "fast_gnp_random_graph", case, pi.msg.clone()).with_panic(pi)),
+                    }
+                }
+            }
+        }
+    }
     out.set("deterministic_generator_calls", calls);
 }
 
